@@ -67,7 +67,50 @@ func vrWork(shared *metric.Environmental, i int) string {
 	return sb.String()
 }
 
+// vrCold: only own objects; run before anything else touched the library in this process (lazily built tables race here)
+func vrCold(i int) string {
+	vecs := []string{
+		"CVSS:3.1/AV:N/AC:L/PR:N/UI:N/S:U/C:H/I:H/A:H/E:F/RL:O/RC:C/CR:H/IR:M/AR:L/MAV:N/MAC:L/MPR:N/MUI:N/MS:C/MC:H/MI:H/MA:H",
+		"CVSS:3.0/AV:P/AC:H/PR:H/UI:R/S:C/C:N/I:L/A:N/E:X",
+	}
+	v := vecs[i%len(vecs)]
+	var sb strings.Builder
+	em, err := metric.NewEnvironmental().Decode(v)
+	fmt.Fprintf(&sb, "%v|%v|", em != nil, err)
+	if em != nil {
+		fmt.Fprintf(&sb, "%v %v %s|", em.Score(), em.Severity(), em.String())
+		rep := NewEnvironmental(em, WithOptionsLanguage([]language.Tag{language.Japanese, language.French, language.English}[i%3]))
+		fmt.Fprintf(&sb, "%s %s %s|", rep.SeverityValue, rep.MAVValue, rep.AVName)
+	}
+	bm, err := metric.NewBase().Decode(v)
+	fmt.Fprintf(&sb, "%v|%v|", bm != nil, err)
+	return sb.String()
+}
+
 func TestVerifRace(t *testing.T) {
+	{
+		const n = 16
+		cold := make([]string, n)
+		start := make(chan struct{})
+		var wg sync.WaitGroup
+		for i := 0; i < n; i++ {
+			wg.Add(1)
+			go func(i int) {
+				defer wg.Done()
+				<-start
+				cold[i] = vrCold(i)
+			}(i)
+		}
+		close(start)
+		wg.Wait()
+		for i := 0; i < n; i++ {
+			if w := vrCold(i); w != cold[i] {
+				fmt.Printf("RACE-DIFF first use of the library from goroutine %d: sequential %q concurrent %q\n", i, w, cold[i])
+				t.Fail()
+				return
+			}
+		}
+	}
 	shared, err := metric.NewEnvironmental().Decode("CVSS:3.1/AV:N/AC:L/PR:L/UI:N/S:C/C:H/I:L/A:N/E:F/RL:W/RC:R/CR:H/MPR:H/MS:U")
 	if err != nil {
 		t.Fatal(err)
@@ -131,7 +174,7 @@ func raceReplay(repo string) (string, bool) {
 	runErr := cmd.Run()
 	text := out.String()
 	hit := strings.Contains(text, "WARNING: DATA RACE") || strings.Contains(text, "RACE-DIFF") || strings.Contains(text, "concurrent map")
-	rep := "race replay (go test -race, 16 goroutines x 20 rounds: decode into own objects, query a shared decoded object, build and export reports):\n"
+	rep := "race replay (go test -race; cold phase: 16 goroutines make the first use of the library at the same moment; then 16 goroutines x 20 rounds: decode into own objects, query a shared decoded object, build and export reports):\n"
 	switch {
 	case hit:
 		i := strings.Index(text, "WARNING: DATA RACE")
